@@ -215,7 +215,7 @@ static void execOp(int code, int slot, int64_t arg, Ent* self) {
     if (C.pos >= s.plan.size()) {
       if (!C.scriptDone) { C.scriptDone = true; C.stopPeers = true; requestTail(); logEvent("script_done"); { Host h; C.pendOwn->clear(); C.pendAny->clear(); } /* nothing new happens in the quiet tail */ for (int i = 0; i < 6; ++i) if (C.clientSlot[i] && C.clientSlot[i]->suspended) { C.clientSlot[i]->suspended = false; ((Server::Client*)C.clientSlot[i]->handle)->resume(); } }
       C.tailTicks++;
-      if (allSettled() && !C.finishing) { C.finishing = true; logEvent("settled"); C.interruptsInvoked++; C.srv->interrupt(); C.interruptsCompleted++; C.lastInterruptDoneSeq = ++C.seq; }
+      if (allSettled() && !C.finishing) { C.finishing = true; logEvent("settled"); { NoPreempt np; C.interruptsInvoked++; } C.srv->interrupt(); { NoPreempt np; C.interruptsCompleted++; C.lastInterruptDoneSeq = ++C.seq; } }
       return;
     }
     const Op& op = s.plan[C.pos++];
@@ -273,7 +273,7 @@ static void execOp(int code, int slot, int64_t arg, Ent* self) {
     C.ncrowd = 0; break; }
   case C_SUSPEND: { Ent* e = C.clientSlot[slot % 6]; if (e) { ((Server::Client*)e->handle)->suspend(); e->suspended = true; } break; }
   case C_RESUME: { Ent* e = C.clientSlot[slot % 6]; if (e) { e->suspended = false; ((Server::Client*)e->handle)->resume(); } break; }
-  case S_INTERRUPT: C.interruptsInvoked++; C.srv->interrupt(); C.interruptsCompleted++; C.lastInterruptDoneSeq = ++C.seq; probe("interrupt_from_callback"); break;
+  case S_INTERRUPT: { NoPreempt np; C.interruptsInvoked++; } C.srv->interrupt(); { NoPreempt np; C.interruptsCompleted++; C.lastInterruptDoneSeq = ++C.seq; } probe("interrupt_from_callback"); break;   /* (oracle counters are shared with the interrupter and waker tasks: updated atomically) */
   case S_WAIT: { static const int w[] = {0, 1, 3, 10, 60, 400}; C.waitTicks = w[arg % 6]; break; }
   case S_QUIET: // the driver timer removes itself: the loop now sleeps in the poll layer until a waker thread interrupts it
     if (self == C.driver && !C.quiet && !C.scriptDone) { static const int us[] = {0, 1, 5, 20, 100, 1000}; C.quietDelayUs = us[arg % 6]; C.srv->remove(*(Server::Timer*)C.driver->handle); C.driver->removed = true; C.quiet = true; C.quietIntDone = false; probe("quiet_period"); C.quietSig->set(); }
@@ -411,7 +411,7 @@ static Result execute(const RunSpec& s, bool keepLog) {
   Config cfg;
   cfg.mem_switch_log2 = (int)simdrv::knob(s, "mem_switch_log2", 255); cfg.sync_switch_log2 = (int)simdrv::knob(s, "sync_switch_log2", 2);
   cfg.rate[K_SEND] = simdrv::knob(s, "send_fault_pct", 0) / 100.0; cfg.rate[K_EPOLL] = simdrv::knob(s, "epoll_fault_pct", 0) / 100.0; cfg.rate[K_CONN] = simdrv::knob(s, "conn_fault_pct", 0) / 100.0; cfg.rate[K_DNS] = simdrv::knob(s, "dns_fault_pct", 0) / 100.0; cfg.rate[K_EINTR] = simdrv::knob(s, "eintr_pct", 0) / 100.0;
-  cfg.step_budget = 4000000; cfg.tail_budget_min = 8000000; cfg.tail_factor = 10; cfg.dilation_cap_ns = 4000000000LL;   /* longest sleep of any party is 3 s (DNS delay); a tail of 8M steps covers the catch-up of eight 1 ms timers after 4 s */ cfg.keep_log = keepLog;
+  cfg.step_budget = 4000000; cfg.tail_budget_min = 8000000; cfg.tail_factor = 10; cfg.keep_log = keepLog;
   setProcessorCount((int)simdrv::knob(s, "nproc", 2));
   static std::vector<Pending> pOwn, pAny; pOwn.clear(); pAny.clear();
   memset((void*)&C, 0, sizeof C); C.spec = &s; C.pendOwn = &pOwn; C.pendAny = &pAny;
